@@ -180,7 +180,8 @@ func TestVfC07Cache(t *testing.T) {
 		seq++
 		tiny := rapid.IntRange(0, 3).Draw(t, "tinyCache") == 0
 		P := proxies[tiny]
-		label := fmt.Sprintf("c%dp%d", seq, os.Getpid())
+		// a drawn tail over the whole alphabet: the case folding of every letter is on the path
+		label := fmt.Sprintf("c%dp%d", seq, os.Getpid()) + rapid.StringMatching("[a-z]{0,6}").Draw(t, "labelTail")
 		baseName := vfkit.Name{[]byte("_" + label), []byte("cache"), []byte("test")}
 		otherName := vfkit.Name{[]byte(label + "x"), []byte("cache"), []byte("test")}
 		if rapid.Bool().Draw(t, "bit5Twin") {
@@ -203,6 +204,15 @@ func TestVfC07Cache(t *testing.T) {
 			switch rapid.IntRange(0, 7).Draw(t, "vary") {
 			case 0: // letter case only
 				a.name = vfkit.Name{[]byte("_" + strings.ToUpper(label)), []byte("CaChE"), []byte("tEST")}
+				if mask := rapid.Uint32().Draw(t, "caseMask"); mask&1 != 0 { // per-letter mix instead of all upper
+					l := []byte("_" + label)
+					for j := range l {
+						if mask&(1<<uint(1+j%31)) != 0 && 'a' <= l[j] && l[j] <= 'z' {
+							l[j] -= 'a' - 'A'
+						}
+					}
+					a.name[0] = l
+				}
 			case 1:
 				a.name = otherName
 			case 2:
